@@ -4,6 +4,7 @@ so the file stays right after a rebase). 'known' entries and comments are kept a
 import json, os, re, subprocess
 ROOT = os.path.dirname(os.path.dirname(os.path.abspath(__file__)))
 RULES = [
+    (r'REPL decides that input is incomplete', 'C20'),
     (r'search path entry that is not a directory', 'C19'),
     (r'comparing slices whose members|__annotations__ of a function without', 'C10'),
     (r'raising something that is not an exception', 'C02'),
